@@ -472,6 +472,20 @@ func ewRun(c *core.Ctx, sp ewSpec) *ewObs {
 		if sp.Mode == "reuseB-same" {
 			opts = append(opts, tensor.AsSameType())
 		}
+	case "reuse-othertype", "incr-othertype":
+		// a destination of another element type (of the same element size where one exists) cannot hold the result
+		ot := otherElemType(sp.T)
+		o.D, pre = ewBuild(c, ot, sp.Shape, sp.Dest, gen.Canary(ot, n, 99), sp.Engine, nil)
+		if pre != "" {
+			o.precond = pre
+			return o
+		}
+		o.destInit = o.D.op.M
+		if sp.Mode == "incr-othertype" {
+			opts = append(opts, tensor.WithIncr(o.D.op.D))
+		} else {
+			opts = append(opts, tensor.WithReuse(o.D.op.D))
+		}
 	case "reuse-unfit":
 		// a comparison without AsSameType delivers bools: a destination of the operands' (non-bool) element type cannot hold them
 		o.D, pre = ewBuild(c, sp.T, sp.Shape, sp.Dest, gen.Canary(sp.T, n, 99), sp.Engine, nil)
@@ -784,7 +798,7 @@ func ewJudge(c *core.Ctx, o *ewObs, pol ewPolicy) bool {
 		dest, destName = o.A, "a"
 	case "reuseB", "reuseB-same", "incrB":
 		dest, destName = o.B, "b"
-	case "reuse", "incr", "reuse-bool", "reuse-same", "reuse-unfit":
+	case "reuse", "incr", "reuse-bool", "reuse-same", "reuse-unfit", "reuse-othertype", "incr-othertype":
 		dest, destName = o.D, "dest"
 	}
 	destLay := sp.Dest
@@ -793,6 +807,41 @@ func ewJudge(c *core.Ctx, o *ewObs, pol ewPolicy) bool {
 		destLay = sp.LayA
 	case "reuseB", "reuseB-same", "incrB":
 		destLay = sp.LayB
+	}
+	if sp.Mode == "reuse-othertype" || sp.Mode == "incr-othertype" {
+		// a refusal that leaves everything as it was; an operation that accepts must still deliver the safe-mode values
+		// in a tensor of the result's element type (nothing in the library converts, so this is not expected to happen)
+		if !o.panicked && o.err == nil {
+			okRes := false
+			if o.res != nil && o.want != nil && o.res.Dtype().Type == o.want.T {
+				if rm, e := gen.ReadAll(o.res); e == nil && gen.ShapeEq(rm.Shape, o.want.Shape) {
+					okRes = true
+					for i := range rm.V {
+						if o.defined != nil && !o.defined[i] {
+							continue
+						}
+						if !pol.eq(rm.V[i], o.want.V[i]) {
+							okRes = false
+							break
+						}
+					}
+				}
+			}
+			if !okRes {
+				viol("other-type-destination-accepted", "refused (the destination has another element type)", fmt.Sprint("a result in a ", o.D.op.D.Dtype(), " destination"))
+				return true
+			}
+			c.Tally("other-type-destination-served:" + sp.Op)
+			return true
+		}
+		for name, t := range map[string]*ewTensorObs{"a": o.A, "b": o.B, "dest": o.D} {
+			if t != nil && !t.untouched() {
+				viol("other-type-destination-"+name+"-changed", "a refusal that writes nothing", fmt.Sprint(t.changed[:min(len(t.changed), 6)], " ", t.metaDif))
+				return true
+			}
+		}
+		c.Refused("other-type-destination:" + sp.Op)
+		return true
 	}
 	if sp.Mode == "reuse-unfit" {
 		// the only acceptable outcome is a refusal that leaves everything as it was
@@ -900,4 +949,30 @@ func ewJudge(c *core.Ctx, o *ewObs, pol ewPolicy) bool {
 		}
 	}
 	return true
+}
+
+// otherElemType picks an element type different from t, of the same element size where there is one (a kernel that
+// trusts the destination's storage then writes plausible-looking garbage rather than failing).
+func otherElemType(t reflect.Type) reflect.Type {
+	switch t {
+	case model.TF64:
+		return model.TInt64
+	case model.TF32:
+		return model.TInt32
+	case model.TInt, model.TInt64, model.TUint64, model.TUint:
+		return model.TF64
+	case model.TInt32, model.TUint32:
+		return model.TF32
+	case model.TInt8:
+		return model.TUint8
+	case model.TUint8:
+		return model.TInt8
+	case model.TInt16:
+		return model.TUint16
+	case model.TUint16:
+		return model.TInt16
+	case model.TC64:
+		return model.TF64
+	}
+	return model.TF64
 }
